@@ -3318,8 +3318,38 @@ impl Interpreter {
         }
     }
 
-    /// Start yield* delegation - get the first value from the iterable
+    /// Start yield* delegation - get the first value from the iterable. A failure to obtain
+    /// the iterator or its first result is an exception thrown at the yield* expression, which
+    /// the generator's own handlers may catch.
     fn start_yield_star_delegation(
+        &mut self,
+        gen_state: &Rc<RefCell<BytecodeGeneratorState>>,
+        iterable: JsValue,
+        saved_env: Gc<JsObject>,
+    ) -> Result<Guarded, JsError> {
+        let error =
+            match self.start_yield_star_delegation_inner(gen_state, iterable, saved_env.clone()) {
+                Err(error) if gen_state.borrow().status != GeneratorStatus::Completed => error,
+                other => return other,
+            };
+        self.env = saved_env;
+        let thrown = match error {
+            JsError::ThrownValue { guarded } => guarded,
+            other => {
+                let (value, guard) = builtins::error::create_error_object(self, &other);
+                Guarded { value, guard }
+            }
+        };
+        {
+            let mut state = gen_state.borrow_mut();
+            state.delegated_iterator = None;
+            state.status = GeneratorStatus::Suspended;
+            state.throw_value = Some(thrown.value.clone());
+        }
+        self.resume_bytecode_generator(gen_state)
+    }
+
+    fn start_yield_star_delegation_inner(
         &mut self,
         gen_state: &Rc<RefCell<BytecodeGeneratorState>>,
         iterable: JsValue,
